@@ -264,10 +264,17 @@ class Interpreter(BaseInterpreter[TContext, TEvent]):
             logger.error(
                 "💥 Interpreter '%s' failed to start.", self.id, exc_info=True
             )
-            self.status = "stopped"
-            # Ensure the event loop task is cancelled if it was created.
-            if self._event_loop_task and not self._event_loop_task.done():
-                self._event_loop_task.cancel()
+            # 🧹 Release whatever the half-finished start already created.
+            #
+            # 🏛️ Architecture decision: hand over to `stop()` instead of
+            #    setting `status = "stopped"` here. `stop()` returns at once
+            #    on a stopped interpreter, so writing the status first made
+            #    every later `stop()` a no-op: the timers, service tasks and
+            #    child actors of the states entered before the failure kept
+            #    running with nothing left that could cancel them. `stop()`
+            #    owns the status transition, cancels the tasks and actors
+            #    and ends the event loop task created above.
+            await self.stop()
             raise  # Re-raise the original exception to the caller.
 
         return self
